@@ -8,12 +8,15 @@ pub fn run(ctx: &Ctx) -> Outcome {
     for (i, m) in [(8usize, 8usize), (8, 32), (32, 8)] {
         run_and_report(ctx, &tx_flow(ctx.tier, i, m, d), &mut out);
     }
+    run_and_report(ctx, &tx_grow(ctx.tier, ctx.tier.pick(5, 7)), &mut out);
     // the write half and the connection on different threads (a multi-threaded runtime)
     {
         use crate::solo::threads::*;
-        let tc = ThreadsCfg { base_depth: ctx.tier.pick(2, 3), preemption_bound: ctx.tier.pick(Some(2), None), max_runs_per_case: ctx.tier.pick(3_000, 200_000), with_suffix: false, triples: false };
+        let tc = ThreadsCfg { base_depth: ctx.tier.pick(2, 3), preemption_bound: ctx.tier.pick(Some(2), None), max_runs_per_case: ctx.tier.pick(3_000, 200_000), with_suffix: false, triples: false, doubles: true };
         explore_threads(ctx, &tx_flow(ctx.tier, 8, 8, 0), &tc, &mut out);
         explore_threads(ctx, &tx_flow(ctx.tier, 8, 32, 0), &tc, &mut out);
+        let tc1 = ThreadsCfg { base_depth: ctx.tier.pick(1, 2), ..tc };
+        explore_threads(ctx, &tx_grow(ctx.tier, 0), &tc1, &mut out);
     }
     out.merge(crate::exhaust::ring::run(ctx));
     out.rule = "C19: explicit-state BFS over write sizes x ACK schedules x (initial, max) buffer settings on one real connection; exhaustive op sequences on the real UserTx ring against a VecDeque".into();
